@@ -479,4 +479,217 @@ theorem spec2_func (hd : E .divzero) (cfg : CheckCfg) (c : SCfg) (hw : WorldConf
         · exact smok_lift hcall
       · rw [if_neg hsa] at hs; cases hs
 
+/-! ### array literals and the conditional with non-scalar branches -/
+
+def vtyOK (t : Option OTy) : Bool :=
+  match t with
+  | some τ => (vtyOf τ).isSome
+  | none => false
+
+def ElemsOK (E : ErrClass → Prop) (cfg : CheckCfg) (c : SCfg) (cs : List OTy) : List Node → Prop
+  | [] => True
+  | a :: rest => (a.isPair = false ∧ Spec2 E cfg c cs a ∧ vtyOK (synth cfg cs a) = true) ∧ ElemsOK E cfg c cs rest
+
+theorem elems_spec2 (cfg : CheckCfg) (c : SCfg) (cs : List OTy) :
+    ∀ xs : List Node, ElemsOK E cfg c cs xs → synthList cfg cs xs = true → ∀ st : CState, st.colls = cs →
+      (visitList cfg xs st).2.colls = cs ∧
+      ∀ ctx, CtxFor cs ctx → SMOK E (fun _ => True) (evalList c ctx (visitList cfg xs st).1)
+  | [], _, _, st, hst => by
+    simp only [visitList]
+    refine ⟨hst, ?_⟩
+    intro ctx _
+    simp only [evalList]
+    exact smok_pure trivial
+  | a :: rest, hok, hs, st, hst => by
+    obtain ⟨⟨hnp, ih, hv⟩, hrest⟩ := hok
+    simp only [synthList, Bool.and_eq_true] at hs
+    cases hsa : synth cfg cs a with
+    | none => rw [hsa] at hv; cases hv
+    | some t0 =>
+      rw [hsa] at hv
+      obtain ⟨V0, hV0⟩ := Option.isSome_iff_exists.1 hv
+      obtain ⟨_, _, ev⟩ := ih t0 V0 hsa hV0 st hst
+      have hc := visit_colls cfg a st
+      have hpair := visit_isPair cfg a st
+      rcases hva : visit cfg a st with ⟨a', t', st1⟩
+      rw [hva] at ev hc hpair
+      simp only [] at ev hc hpair
+      obtain ⟨hcr, evr⟩ := elems_spec2 cfg c cs rest hrest hs.2 st1 (hc.trans hst)
+      rcases hr : visitList cfg rest st1 with ⟨rest', st2⟩
+      rw [hr] at hcr evr
+      simp only [] at hcr evr
+      simp only [visitList, hva, hr]
+      refine ⟨hcr, ?_⟩
+      intro ctx hctx
+      rw [evalList_cons c ctx a' rest' (by rw [hpair]; exact hnp)]
+      refine smok_bind (evalOKV_smok ev ctx hctx) ?_
+      intro v _
+      refine smok_bind (evr ctx hctx) ?_
+      intro vs _
+      exact smok_pure trivial
+
+theorem smok_allocAfter (hb : E .budget) (lim cnt : Int) (n : Nat) : SMOK E (fun _ => True) (SM.allocAfter lim cnt n) := by
+  intro s
+  rcases allocAfter_cases lim cnt n s with ⟨s', h⟩ | ⟨s', h⟩
+  · rw [h]; exact hb
+  · rw [h]; trivial
+
+/-- `[a, b, …]`: a `[]interface{}` -/
+theorem spec2_array (hb : E .budget) (cfg : CheckCfg) (c : SCfg) (cs : List OTy) (m : Meta) (xs : List Node)
+    (hxs : ElemsOK E cfg c cs xs) : Spec2 E cfg c cs (.array m xs) := by
+  intro τ V hs hV st hst
+  simp only [synth] at hs
+  by_cases hl : synthList cfg cs xs = true
+  · rw [if_pos hl] at hs
+    cases hs
+    have : vtyOf arrayTy = some .anys := by decide
+    rw [this] at hV
+    cases hV
+    obtain ⟨hc, ev⟩ := elems_spec2 cfg c cs xs hxs hl st hst
+    rcases hr : visitList cfg xs st with ⟨xs', st1⟩
+    rw [hr] at hc ev
+    simp only [] at hc ev
+    simp only [visit, hr]
+    refine ⟨trivial, setKd_kd _ _, ?_⟩
+    apply smok_evalOKV
+    intro ctx hctx
+    show SMOK E (fun v => ∃ ys, v = .arr .iface ys) (eval c ctx (.array { m with kd := OTy.kind arrayTy } xs'))
+    simp only [eval]
+    refine smok_bind (ev ctx hctx) ?_
+    intro vs _
+    refine smok_bind (smok_allocAfter hb _ _ _) ?_
+    intro _ _
+    exact smok_pure ⟨vs, rfl⟩
+  · rw [if_neg hl] at hs; cases hs
+
+theorem smok_asBool {v : Val} (hv : ∃ b, v = .bool b) (Q : Bool → Prop) (hq : ∀ b, Q b) : SMOK E Q (asBool v) := by
+  obtain ⟨b, rfl⟩ := hv
+  exact smok_pure (hq b)
+
+/-- `c ? a : b` with branches of one value type (scalars or slices) -/
+theorem spec2_cond (cfg : CheckCfg) (c : SCfg) (cs : List OTy) (m : Meta) (cn a b : Node)
+    (ihc : Spec2 E cfg c cs cn) (iha : Spec2 E cfg c cs a) (ihb : Spec2 E cfg c cs b)
+    (hc : ∀ ct, synth cfg cs cn = some ct → ScalarT ct)
+    (hab : ∀ t1 t2, synth cfg cs a = some t1 → synth cfg cs b = some t2 →
+      ∃ V, vtyOf t1 = some V ∧ vtyOf t2 = some V ∧ vtyOf (condType cfg.dt t1 t2) = some V) :
+    Spec2 E cfg c cs (.cond m cn a b) := by
+  intro τ V hs hV st hst
+  simp only [synth] at hs
+  cases hsc : synth cfg cs cn with
+  | none => rw [hsc] at hs; cases hs
+  | some ct =>
+    rw [hsc] at hs
+    simp only [] at hs
+    by_cases hbool : isBoolT ct = true
+    · simp only [hbool, Bool.not_true, Bool.false_eq_true, if_false] at hs
+      cases hsa : synth cfg cs a with
+      | none => rw [hsa] at hs; cases hs
+      | some t1 =>
+        cases hsb : synth cfg cs b with
+        | none => rw [hsa, hsb] at hs; cases hs
+        | some t2 =>
+          rw [hsa, hsb] at hs
+          cases hs
+          obtain ⟨V', h1, h2, h3⟩ := hab t1 t2 hsa hsb
+          rw [h3] at hV
+          cases hV
+          have hcs := hc ct hsc
+          have hck : ct.kind = .bool := (isBoolT_scalar hcs).1 hbool
+          obtain ⟨e0, _, ev0⟩ := ihc ct (.sc ct.kind) hsc (vtyOf_scalar hcs) st hst
+          have hc0 := visit_colls cfg cn st
+          rcases hv0 : visit cfg cn st with ⟨cn', ct', st0⟩
+          rw [hv0] at e0 ev0 hc0
+          simp only [] at e0 ev0 hc0
+          subst e0
+          obtain ⟨e1, _, ev1⟩ := iha t1 V hsa h1 st0 (hc0.trans hst)
+          have hc1 := visit_colls cfg a st0
+          rcases hv1 : visit cfg a st0 with ⟨a', t1', st1⟩
+          rw [hv1] at e1 ev1 hc1
+          simp only [] at e1 ev1 hc1
+          subst e1
+          obtain ⟨e2, _, ev2⟩ := ihb t2 V hsb h2 st1 (hc1.trans (hc0.trans hst))
+          rcases hv2 : visit cfg b st1 with ⟨b', t2', st2⟩
+          rw [hv2] at e2 ev2
+          simp only [] at e2 ev2
+          subst e2
+          simp only [visit, hv0, hbool, Bool.not_true, Bool.false_eq_true, if_false, hv1, hv2]
+          refine ⟨trivial, setKd_kd _ _, ?_⟩
+          apply smok_evalOKV
+          intro ctx hctx
+          show SMOK E (fun v => ValOfV v V)
+            (eval c ctx (.cond { m with kd := OTy.kind (condType cfg.dt t1' t2') } cn' a' b'))
+          simp only [eval]
+          rw [hck] at ev0
+          refine smok_bind (evalOKV_smok ev0 ctx hctx) ?_
+          intro v hv
+          refine smok_bind (smok_asBool hv (fun _ => True) (fun _ => trivial)) ?_
+          intro bv _
+          cases bv
+          · exact evalOKV_smok ev2 ctx hctx
+          · exact evalOKV_smok ev1 ctx hctx
+    · simp only [hbool, Bool.not_false, if_true] at hs
+      cases hs
+
+theorem toFloat64Val_num {v : Val} {k : Kind} (h : NumOf v k) : ∃ x, toFloat64Val v = some x := by
+  obtain ⟨x, hx⟩ := conv_num .float64 h
+  exact ⟨x, by simp only [toFloat64Val, hx, numOf_kind h]⟩
+
+/-- `a ** b` on numbers: a float64 -/
+theorem spec2_pow (cfg : CheckCfg) (c : SCfg) (cs : List OTy) (m : Meta) (l r : Node)
+    (ihl : Spec2 E cfg c cs l) (ihr : Spec2 E cfg c cs r)
+    (hl : ∀ t, synth cfg cs l = some t → ScalarT t) (hr : ∀ t, synth cfg cs r = some t → ScalarT t) :
+    Spec2 E cfg c cs (.binary m "**" l r) := by
+  intro τ V hs hV st hst
+  simp only [synth] at hs
+  cases hsl : synth cfg cs l with
+  | none => rw [hsl] at hs; cases hs
+  | some lt =>
+    cases hsr : synth cfg cs r with
+    | none => rw [hsl, hsr] at hs; cases hs
+    | some rt =>
+      rw [hsl, hsr] at hs
+      simp only [] at hs
+      have hrule := toOption'_some hs
+      have hls := hl lt hsl
+      have hrs := hr rt hsr
+      obtain ⟨e1, _, ev1⟩ := ihl lt (.sc lt.kind) hsl (vtyOf_scalar hls) st hst
+      have hst1 := visit_colls cfg l st
+      rcases hlv : visit cfg l st with ⟨l', lt', st1⟩
+      rw [hlv] at e1 ev1 hst1
+      simp only [] at e1 ev1 hst1
+      subst e1
+      obtain ⟨e2, _, ev2⟩ := ihr rt (.sc rt.kind) hsr (vtyOf_scalar hrs) st1 (hst1.trans hst)
+      rcases hrv : visit cfg r st1 with ⟨r', rt', st2⟩
+      rw [hrv] at e2 ev2
+      simp only [] at e2 ev2
+      subst e2
+      have hrule0 := hrule
+      simp [binaryRule] at hrule
+      split at hrule
+      · rename_i hc
+        cases hrule
+        obtain ⟨ka, k1⟩ := (isNumberT_scalar hls).1 hc.1
+        obtain ⟨kb, k2⟩ := (isNumberT_scalar hrs).1 hc.2
+        have : V = .sc (.num .float64) := by
+          have : vtyOf floatTy = some (.sc (.num .float64)) := by decide
+          rw [this] at hV; cases hV; rfl
+        subst this
+        simp only [visit, hlv, hrv, hrule0, orFail_ok]
+        refine ⟨trivial, setKd_kd _ _, ?_⟩
+        apply smok_evalOKV
+        intro ctx hctx
+        show SMOK E (fun v => ValOfV v (.sc (.num .float64)))
+          (eval c ctx (.binary { m with kd := OTy.kind floatTy } "**" l' r'))
+        simp (config := {decide := true}) only [eval, if_false, if_true]
+        refine smok_bind (evalOKV_smok ev1 ctx hctx) ?_
+        intro a ha
+        refine smok_bind (evalOKV_smok ev2 ctx hctx) ?_
+        intro b hb
+        rw [k1] at ha; rw [k2] at hb
+        obtain ⟨x, hx⟩ := toFloat64Val_num ha
+        obtain ⟨y, hy⟩ := toFloat64Val_num hb
+        simp only [hx, hy]
+        exact smok_pure ⟨_, rfl⟩
+      · cases hrule
+
 end ExprModel
